@@ -100,7 +100,13 @@ IAMP = {"int16": [100, 3000, 30000], "int32": [500, 10 ** 6, 2 ** 30], "int64": 
 
 
 def gen_input(rng, quick, big=False, kind=None, M=None, dtype="random"):
-    meth = kind or rng.choice(["welch", "welch", "welch", "mt", "mt_adaptive", "periodogram"])
+    meth = kind or rng.choice(["welch", "welch", "welch", "welch_short", "mt", "mt_adaptive", "periodogram"])
+    # Welch with an overlap above NFFT/2 on an input SHORTER than NFFT + n_overlap (the window in which
+    # CoherenceAnalyzer warns about short input): "several" = still 2..15 segments, "single" = one segment
+    short = None
+    if meth == "welch_short":
+        meth = "welch"
+        short = rng.choice(["several", "several", "several", "single"])
     if M is not None:
         pass
     elif big:
@@ -115,7 +121,18 @@ def gen_input(rng, quick, big=False, kind=None, M=None, dtype="random"):
         N = rng.choice([64, 80, 100, 128] if quick else [64, 100, 128, 200, 256])
     else:
         N = rng.choice([64, 64, 65] if quick else [64, 65, 72, 96, 128])
-    if meth == "welch":
+    if short:
+        NFFT = rng.choice([40, 48, 64] if not big else [40, 64, 65, 128, 256])
+        n_overlap = rng.randint(NFFT // 2 + 1, NFFT - 1)
+        if short == "several":
+            lo_n, hi_n = max(64, 2 * NFFT - n_overlap), NFFT + n_overlap - 1
+        else:
+            NFFT = 64 if not big else rng.choice([64, 128, 256])
+            n_overlap = rng.randint(NFFT // 2 + 1, NFFT - 9)
+            lo_n, hi_n = NFFT, 2 * NFFT - n_overlap - 1
+        N = rng.randint(lo_n, max(lo_n, hi_n))
+        method = {"this_method": "welch", "NFFT": NFFT, "n_overlap": n_overlap}
+    elif meth == "welch":
         NFFT = rng.choice([16, 16, 32, 15, 24] if not big else
                           [n for n in (16, 31, 32, 64, 63, 128, 127, 255, 256, 512, 513, 1024) if 2 * n <= max(N, 64)] or [16])
         n_overlap = rng.choice([0, NFFT // 2, NFFT // 4, NFFT - 3, NFFT - 1, (NFFT + 1) // 2])
@@ -203,7 +220,7 @@ def gen_input(rng, quick, big=False, kind=None, M=None, dtype="random"):
     return {"seed": rng.randrange(10 ** 6), "M": M, "N": N, "method": method, "mix": mix, "tone": tone,
             "scale": scale, "gains": gains, "offset": offset, "form": form, "dtype": dtype, "iamp": iamp,
             "side_dtype": side, "side_form": rng.choice(["plain", "fortran", "strided", "rowstrided"]),
-            "lb": lb, "ub": ub, "kind": meth, "big": big}
+            "lb": lb, "ub": ub, "kind": meth, "big": big, "short": short}
 
 
 # ------------------------------------------------------------------ running the implementation
@@ -288,7 +305,12 @@ class Run:
             self.fn["coherency_bavg"] = coh.coherency_bavg(x, lb=d["lb"], ub=d["ub"], csd_method=dict(m))
             self.fdel, self.fn["delay"] = coh.coherency_phase_delay(x, lb=d["lb"], ub=d["ub"], csd_method=dict(m))
         f, self.fn["phase"] = coh.coherency_phase_spectrum(x, csd_method=dict(m))
-        self.partial_ok = d["kind"] != "periodogram"
+        nseg = 2
+        if d["kind"] == "welch":
+            nseg = len(range(0, d["N"] - m["NFFT"] + 1, m["NFFT"] - m["n_overlap"]))
+        self.nseg = nseg
+        # rank-one spectra (periodogram, a single Welch segment): partial coherence is 0/0, outside the quantifier
+        self.partial_ok = d["kind"] != "periodogram" and nseg > 1
         if self.partial_ok:
             if pos:
                 f, self.fn["partial"] = coh.coherence_partial(x, r, dict(m))
@@ -989,18 +1011,18 @@ def corpus_inputs():
 
 
 def klass(d, entry):
-    return "%s/%s/M%d" % (entry, d["kind"], d["M"])
+    return "%s/%s%s/M%d" % (entry, d["kind"], ("-short-" + d["short"]) if d.get("short") else "", d["M"])
 
 
 def run(ctx):
     core.import_nitime()
     ctx.check_props()
-    # quick: 3 corpus inputs (Welch, multitaper, adaptive) + 8 Welch + 1 multitaper + 1 adaptive + 1 periodogram
-    kinds = (["welch"] * 8 + ["mt", "mt_adaptive", "periodogram"]) if ctx.quick else [None] * 90
+    # quick: 3 corpus inputs (Welch, multitaper, adaptive) + 6 Welch + 1 multitaper + 1 adaptive + 1 periodogram + 2 short-input Welch (overlap > NFFT/2)
+    kinds = (["welch"] * 6 + ["mt", "mt_adaptive", "periodogram", "welch_short", "welch_short"]) if ctx.quick else [None] * 90
     if os.environ.get("C08_DEV_KINDS") is not None:      # development aid: a reduced run
         kinds = [k for k in os.environ["C08_DEV_KINDS"].split(",") if k]
-    chans = [2, 3, 4, 5, 3, 2, 4, 3, 3, 3, 3] + [None] * len(kinds)     # quick: every channel count occurs
-    dts = ([None, "int16", None, "int64", None, "int32", None, None, "int32", None, "int16"] + [None] * len(kinds)
+    chans = [2, 3, 4, 5, 3, 2, 3, 3, 3, 2, 3] + [None] * len(kinds)     # quick: every channel count occurs
+    dts = ([None, "int16", None, "int64", None, "int32", "int32", None, "int16", None, None] + [None] * len(kinds)
            if ctx.quick else ["random"] * len(kinds))     # quick: integer-typed signals for 5 of the K inputs
     inputs = corpus_inputs() + [gen_input(ctx.rng, ctx.quick, kind=k, M=(chans[n] if ctx.quick else None), dtype=dts[n])
                                 for n, k in enumerate(kinds)]
